@@ -265,9 +265,13 @@ func berHeaderEncoder(c *Ctx, r *Report, rule string) {
 		}
 		return ""
 	}
-	// the two-way tests the layout depends on
-	var consIf, tagIf, lenIf *ssa.BasicBlock
-	tagTrueIsShort, lenTrueIsShort := true, true
+	// the two-way tests the layout depends on (a test may be evaluated once and branched on twice)
+	type testBlock struct {
+		b         *ssa.BasicBlock
+		trueShort bool
+	}
+	var consIfs []*ssa.BasicBlock
+	var tagIfs, lenIfs []testBlock
 	for _, b := range f.Blocks {
 		if len(b.Instrs) == 0 {
 			continue
@@ -276,8 +280,8 @@ func berHeaderEncoder(c *Ctx, r *Report, rule string) {
 		if !ok {
 			continue
 		}
-		if fieldOf(ifi.Cond) == "constructed" && consIf == nil {
-			consIf = b
+		if fieldOf(ifi.Cond) == "constructed" {
+			consIfs = append(consIfs, b)
 		}
 		if bo, ok := ifi.Cond.(*ssa.BinOp); ok {
 			name := fieldOf(bo.X)
@@ -285,34 +289,60 @@ func berHeaderEncoder(c *Ctx, r *Report, rule string) {
 			if !isK || inCycle(b) {
 				continue
 			}
-			short := false
-			known := true
+			// value <= bound is the short form
+			var short, known bool
+			var bound int64
 			switch bo.Op {
-			case token.LEQ, token.LSS:
-				short = true
-			case token.GTR, token.GEQ:
-				short = false
-			default:
-				known = false
+			case token.LEQ:
+				short, known, bound = true, true, k
+			case token.LSS:
+				short, known, bound = true, true, k-1
+			case token.GTR:
+				short, known, bound = false, true, k
+			case token.GEQ:
+				short, known, bound = false, true, k-1
 			}
 			if !known {
 				continue
 			}
-			if name == "tagNumber" && tagIf == nil && k >= 30 && k <= 31 {
-				tagIf, tagTrueIsShort = b, short
+			if name == "tagNumber" && bound == 30 {
+				tagIfs = append(tagIfs, testBlock{b, short})
 			}
-			if name == "len" && lenIf == nil && k >= 127 && k <= 128 {
-				lenIf, lenTrueIsShort = b, short
+			if name == "len" && bound == 127 {
+				lenIfs = append(lenIfs, testBlock{b, short})
 			}
 		}
 	}
-	if consIf == nil || tagIf == nil || lenIf == nil {
+	if len(consIfs) == 0 || len(tagIfs) == 0 || len(lenIfs) == 0 {
 		r.viol(rule, key+"|tests", c.rel(f.Pos()), "cannot find the tests on constructed / tagNumber <= 30 / len <= 127 in appendTagAndLen")
 		return
 	}
+	sideAmong := func(tests []testBlock, from, at *ssa.BasicBlock) int {
+		for _, t := range tests {
+			if s := sideOf(t.b, from, at); s != 0 {
+				if !t.trueShort {
+					s = -s
+				}
+				return s
+			}
+		}
+		return 0
+	}
+	consSide := func(from, at *ssa.BasicBlock) int {
+		for _, b := range consIfs {
+			if s := sideOf(b, from, at); s != 0 {
+				return s
+			}
+		}
+		return 0
+	}
+	lenSide := func(at *ssa.BasicBlock) int { return sideAmong(lenIfs, nil, at) }
 	// identifier octet: the appends to the dst parameter itself
 	nFirst := 0
-	var afterFirst []ssa.Value
+	type formSeen struct{ cons, prim bool }
+	seenForm := map[int]*formSeen{1: {}, -1: {}}
+	var badAll []string
+	firstPos := ""
 	eachInstr(f, func(_ *ssa.BasicBlock, _ int, ins ssa.Instruction) {
 		call, ok := ins.(*ssa.Call)
 		if !ok {
@@ -328,31 +358,26 @@ func berHeaderEncoder(c *Ctx, r *Report, rule string) {
 			return
 		}
 		nFirst++
-		afterFirst = append(afterFirst, call)
+		if firstPos == "" {
+			firstPos = posOf(c, call)
+		}
 		alts, ok := bitAlternatives(elems[0], fieldOf)
 		if !ok {
 			r.viol(rule, fmt.Sprintf("%s|identifier octet #%d", key, nFirst), posOf(c, call), "undecided: cannot read the identifier octet as a combination of the header's members and constants")
 			return
 		}
-		short := sideOf(tagIf, nil, call.Block())
-		if !tagTrueIsShort {
-			short = -short
-		}
-		form := "low tag number"
-		if short < 0 {
-			form = "high tag number"
-		}
-		k0 := fmt.Sprintf("%s|identifier octet (%s)", key, form)
-		var bad []string
-		seenCons := map[int]bool{}
 		for _, alt := range alts {
-			cons := sideOf(consIf, nil, call.Block())
+			cons := consSide(nil, call.Block())
+			short := sideAmong(tagIfs, nil, call.Block())
 			for _, e := range alt.edges {
-				if s := sideOf(consIf, e[0], e[1]); s != 0 {
+				if s := consSide(e[0], e[1]); s != 0 {
 					cons = s
 				}
+				if s := sideAmong(tagIfs, e[0], e[1]); s != 0 {
+					short = s
+				}
 			}
-			seenCons[cons] = true
+			var bad []string
 			kb := constBits(alt.terms)
 			// class in bits 8-7
 			cls := fieldTerms(alt.terms, "class")
@@ -394,14 +419,30 @@ func berHeaderEncoder(c *Ctx, r *Report, rule string) {
 					bad = append(bad, "member "+t.field+" is mixed into the identifier octet")
 				}
 			}
+			if fs := seenForm[short]; fs != nil {
+				if cons > 0 {
+					fs.cons = true
+				}
+				if cons < 0 {
+					fs.prim = true
+				}
+			}
+			badAll = append(badAll, bad...)
 		}
-		if !seenCons[1] || !seenCons[-1] {
-			bad = append(bad, "the octet does not distinguish constructed from primitive encodings")
-		}
-		r.check(len(bad) == 0, rule, k0, posOf(c, call), "class<<6 | constructed?0x20 | tag number or 11111 (X.690 8.1.2.2-8.1.2.4)", "the identifier octet deviates from X.690 8.1.2: "+strings.Join(uniqStrings(bad), "; ")+": a reader takes another class, form or tag from the octet")
 	})
-	if nFirst < 2 {
-		r.viol(rule, key+"|identifier octet", c.rel(f.Pos()), fmt.Sprintf("expected the identifier octet to be written for the low and for the high tag-number form, found %d", nFirst))
+	for _, form := range []struct {
+		side int
+		name string
+	}{{1, "low tag number"}, {-1, "high tag number"}} {
+		fs := seenForm[form.side]
+		bad := uniqStrings(badAll)
+		if !fs.cons || !fs.prim {
+			bad = append(bad, "no identifier octet is written for "+form.name+"s in both the constructed and the primitive form")
+		}
+		r.check(len(bad) == 0, rule, fmt.Sprintf("%s|identifier octet (%s)", key, form.name), firstPos, "class<<6 | constructed?0x20 | tag number or 11111 (X.690 8.1.2.2-8.1.2.4)", "the identifier octet deviates from X.690 8.1.2: "+strings.Join(bad, "; ")+": a reader takes another class, form or tag from the octet")
+	}
+	if nFirst == 0 {
+		r.viol(rule, key+"|identifier octet", c.rel(f.Pos()), "no identifier octet is appended to the output")
 	}
 	// subsequent tag octets and the length octets: stores of one octet into the output
 	fe := newFormEval(f)
@@ -459,14 +500,11 @@ func berHeaderEncoder(c *Ctx, r *Report, rule string) {
 			if len(elems) != 1 {
 				return
 			}
-			side := sideOf(lenIf, nil, x.Block())
-			if !lenTrueIsShort {
-				side = -side
-			}
+			side := lenSide(x.Block())
 			// the number of digit octets appended on the same side of the length test
 			var digitCount ssa.Value
 			eachInstr(f, func(_ *ssa.BasicBlock, _ int, i2 ssa.Instruction) {
-				if ms, ok := i2.(*ssa.MakeSlice); ok && sideOf(lenIf, nil, ms.Block()) == sideOf(lenIf, nil, x.Block()) && sideOf(lenIf, nil, x.Block()) != 0 {
+				if ms, ok := i2.(*ssa.MakeSlice); ok && lenSide(ms.Block()) == lenSide(x.Block()) && lenSide(x.Block()) != 0 {
 					digitCount = ms.Len
 				}
 			})
